@@ -78,9 +78,34 @@ type expEntry struct {
 }
 
 type graphCase struct {
-	mods []*mod // index = id-1 (id 0 is the runtime)
-	user []int  // ids of user entry points in order
-	desc string
+	mods     []*mod // index = id-1 (id 0 is the runtime)
+	user     []int  // ids of user entry points in order
+	desc     string
+	scenario string // set for the fixed replays of known findings
+}
+
+// fixed replays: a module that import()s itself (known finding C10-self-dynamic-import)
+func scenarioGraphs(r *Rng) []*graphCase {
+	var out []*graphCase
+	{
+		g := &graphCase{scenario: "self-dynamic-import/entry", desc: "entry point that import()s itself"}
+		g.mods = []*mod{{id: 1, name: "e0", user: true, varKW: "let", dyn: []int{1}}}
+		g.user = []int{1}
+		g.fill(r)
+		out = append(out, g)
+	}
+	{
+		g := &graphCase{scenario: "self-dynamic-import/shared-module", desc: "shared module that import()s itself"}
+		g.mods = []*mod{
+			{id: 1, name: "e0", user: true, varKW: "let", stmts: []stmt{{kind: kBare, target: 3}}},
+			{id: 2, name: "e1", user: true, varKW: "let", stmts: []stmt{{kind: kBare, target: 3}}},
+			{id: 3, name: "m0", varKW: "let", dyn: []int{3}},
+		}
+		g.user = []int{1, 2}
+		g.fill(r)
+		out = append(out, g)
+	}
+	return out
 }
 
 func (g *graphCase) m(id int) *mod { return g.mods[id-1] }
@@ -1245,6 +1270,9 @@ func (g *graphCase) describe(cfg buildCfg, withSources bool) map[string]interfac
 		eps = append(eps, "src/"+g.m(e).name+".js")
 	}
 	d := map[string]interface{}{"entryPoints": eps, "options": "bundle splitting format=esm " + cfg.String(), "shape": g.desc}
+	if g.scenario != "" {
+		d["scenario"] = g.scenario
+	}
 	if withSources {
 		d["files"] = files
 	}
@@ -1418,6 +1446,13 @@ func runC10(seed uint64, n int, tier string, outDir string) []*Stats {
 		oracle := tier == "thorough" && pi%16 == 0 || tier != "thorough" && pi%8 == 0
 		handle(g, cfg, true, oracle)
 	}
+
+	// (2b) fixed replays of known findings (oracle only; the model is not consulted)
+	nFull := len(fullItems)
+	for _, g := range scenarioGraphs(r) {
+		handle(g, buildCfg{}, true, true)
+	}
+	fullItems = fullItems[:nFull]
 
 	// (3) run Node once for all jobs
 	tBuild := time.Since(t0)
